@@ -221,8 +221,12 @@ func engRequest(variants []reqParams) vsched.Instance {
 						dl++
 					}
 				}
-				if dl >= p.Replies {
-					vs = append(vs, V("timeout/reply-sent-in-time-was-undeliverable", "%s: requester %d: %v; Result called at %d, reply sent at %d, timeout %v, all %d replies dead-lettered; events %v", p, i, o.err, o.t0, at, timeout, p.Replies, k.Events()))
+				nrep := p.Replies
+				if p.Hedge {
+					nrep = 2 * p.Replies // both replicas reply
+				}
+				if dl >= nrep {
+					vs = append(vs, V("timeout/reply-sent-in-time-was-undeliverable", "%s: requester %d: %v; Result called at %d, reply sent at %d, timeout %v, all %d replies dead-lettered; events %v", p, i, o.err, o.t0, at, timeout, nrep, k.Events()))
 				}
 			}
 			if o.did2 && (o.err2 == nil || o.got2 != nil) {
